@@ -370,9 +370,16 @@ func c04TimeSubs(c *Ctx) {
 			startS := r.Pick(0, 61, 1000000)
 			tsbd := r.Pick(10, 60)
 			ato := r.Pick(0, 500, a.SegmentDurMS+1000, a.SegmentDurMS*2, -1)
-			cf := mkCfg(startS, tsbd, 0, ato, "n")
+			snr := r.Pick(0, 0, 1, 5)
+			cf := mkCfg(startS, tsbd, snr, ato, r.PickS("n", "n", "tln"))
 			k := r.Pick(0, 1, n, 3*n+1, 25)
-			e := expectSeg(a, ref, k, 0)
+			if snr > 0 && r.Intn(3) == 0 {
+				k = -r.Range(1, snr) // a number below startNumber: 404 for the subtitles as for the video
+			}
+			e := expectSeg(a, ref, maxInt(k, 0), snr)
+			if k < 0 {
+				e.nr = snr + k
+			}
 			atoEff := ato
 			if ato < 0 {
 				atoEff = 0
